@@ -41,22 +41,24 @@ let ext_file name = match List.assoc_opt (string_of_zlist name) !exts with
   | Some p -> (try Some (zlist_of_string (read_file p)) with _ -> None)
   | None -> None
 
+(* one python3 helper for the whole run: a line "hex-of-stream" in, a line "hex-of-inflated-data" (or "!") out *)
+let helper : (in_channel * out_channel) option ref = ref None
+let get_helper () = match !helper with
+  | Some h -> h
+  | None ->
+    let prog = "import sys,zlib,binascii\nfor l in sys.stdin:\n  try:\n    print(binascii.hexlify(zlib.decompressobj().decompress(binascii.unhexlify(l.strip()))).decode())\n  except Exception:\n    print('!')\n  sys.stdout.flush()\n" in
+    let h = Unix.open_process (Printf.sprintf "python3 -u -c %s" (Filename.quote prog)) in
+    helper := Some h; h
+
 let inflate raw n =
   try
-    let tmp = Filename.temp_file "h4read" ".z" in
-    let oc = open_out_bin tmp in
-    output_string oc (string_of_zlist raw); close_out oc;
-    let cmd = Printf.sprintf
-      "python3 -c \"import sys,zlib;d=zlib.decompressobj().decompress(open(sys.argv[1],'rb').read());sys.stdout.buffer.write(d)\" %s"
-      (Filename.quote tmp) in
-    let ic = Unix.open_process_in cmd in
-    let b = Buffer.create 256 in
-    (try while true do Buffer.add_channel b ic 1 done with End_of_file -> ());
-    let st = Unix.close_process_in ic in
-    Sys.remove tmp;
-    let s = Buffer.contents b in
+    let (ic, oc) = get_helper () in
+    output_string oc (Stdlib.String.concat "" (List.map (fun b -> Printf.sprintf "%02x" ((iz b) land 255)) raw));
+    output_char oc '\n'; flush oc;
+    let line = input_line ic in
     let want = iz n in
-    if st = Unix.WEXITED 0 && String.length s >= want then Some (zlist_of_string (String.sub s 0 want)) else None
+    if line = "!" || Stdlib.String.length line / 2 < want then None
+    else Some (List.init want (fun i -> ztab.(int_of_string ("0x" ^ Stdlib.String.sub line (2 * i) 2))))
   with _ -> None
 
 (* ---- state ---- *)
@@ -307,8 +309,10 @@ let do_di toks =
        (match vh_of a' with
         | None -> one_extent toks None
         | Some v ->
-          let mine = List.filter (fun at -> iz at.va_findex = b') v.vh_attrs in
-          (match List.nth_opt mine (int_of_string coords) with
+          let k = z (int_of_string coords) in
+          let spec_e = vsattr_nth v.vh_attrs (z b') k and model_e = vs_getattdatainfo_entry v.vh_attrs (z b') k in
+          if spec_e <> model_e then Printf.printf "AM %s model-differs\n" (Stdlib.String.concat " " toks);
+          (match spec_e with
            | Some at -> one_extent toks (data_extents ext_file inflate !img (ds ()) (z 1963) at.va_ref None)
            | None -> one_extent toks None))
      | "VGATT" ->
